@@ -344,14 +344,20 @@ def c16_e(ctx: Ctx):
     if not isinstance(types, dict):
         return [ctx.inc(R, f, f.node, "RE_TYPES does not fold to a dict")]
     accepted = set()
+    # the type names for which a converter is entered into the returned table: constants tested (== / in) by an `if` whose body stores into a subscript
     for n in body_nodes(f):
-        if isinstance(n, ast.Compare) and len(n.ops) == 1 and common.pmatch("D[K]", n.left) is not None and isinstance(n.left.value, ast.Name):
-            v = ctx.fold(n.comparators[0], f)
+        if isinstance(n, ast.If) and isinstance(n.test, ast.Compare) and len(n.test.ops) == 1 and isinstance(n.test.ops[0], (ast.Eq, ast.In)) \
+                and any(isinstance(a, ast.Assign) and any(isinstance(t, ast.Subscript) for t in a.targets) for a in n.body):
+            v = ctx.fold(n.test.comparators[0], f)
             if isinstance(v, str):
                 accepted.add(v)
-            elif isinstance(v, (tuple, list, frozenset)):
+            elif isinstance(v, (tuple, list, frozenset, set)) and all(isinstance(x, str) for x in v):
                 accepted |= set(v)
-    if accepted == set(types):
+            elif isinstance(v, dict) and all(isinstance(x, str) for x in v):
+                accepted |= set(v)
+    if not accepted:
+        out.append(ctx.inc(R, f, f.node, "the type names accepted by the schema-string converter could not be determined"))
+    elif accepted == set(types):
         out.append(ctx.ok(R, f, f.node, f"converter accepts exactly the RE_TYPES keys {sorted(types)}"))
     else:
         out.append(ctx.viol(R, f, f.node, f"RE_TYPES has {sorted(types)} but the converter accepts {sorted(accepted)}: a schema string using {sorted(set(types) ^ accepted)} "
